@@ -68,6 +68,10 @@ fn run_case(case: &Sexp) -> String {
 /// hang is an observation, never a hung check.
 fn may_hang(case: &Sexp) -> bool {
   let l = case.list();
+  // real threads racing on a thread-safe operator: a lock-order mistake makes them wait for each other for ever
+  if matches!(l[2].atom(), "finalize_race" | "unsub_race") {
+    return true;
+  }
   matches!(l[2].atom(), "flatten" | "finalize") && l[3].atom() == "threads"
 }
 
